@@ -289,8 +289,11 @@ static void do_flush(FObj* f, int fault) {
 }
 
 static void do_print(FObj* f, int64_t fmt, int64_t val, int fault) {
-  char out[128];
-  int k = (int)(((fmt % 4) + 4) % 4);
+  static char out[4400]; static char arg[4400];
+  int k = (int)(((fmt % 6) + 6) % 6);
+  /* long pieces: one %s argument / one literal of a length around the sizes a buffered formatter might use */
+  static const int LL[] = { 63, 64, 65, 127, 128, 129, 255, 256, 257, 511, 512, 513, 1023, 1024, 1025, 2047, 2048, 2049, 4095, 4096, 4097, 300, 700, 1500 };
+  int L = LL[(int)(((val % 24) + 24) % 24)];
   var volatile ex = NULL; volatile int r = 0;
   if (f->open && f->mode != M_R) switch_dir(f, 2);
   if (fault) vfs_arm(fault, 1);
@@ -298,7 +301,13 @@ static void do_print(FObj* f, int64_t fmt, int64_t val, int fault) {
     case 0: snprintf(out, sizeof out, "%li ", (long)val); CALL(ex, r = print_to(f->obj, 0, "%li ", $I(val))); break;
     case 1: snprintf(out, sizeof out, "v=%li;", (long)val); CALL(ex, r = print_to(f->obj, 0, "v=%li;", $I(val))); break;
     case 2: snprintf(out, sizeof out, "%s|", val & 1 ? "odd" : "even"); CALL(ex, r = print_to(f->obj, 0, "%s|", $S(val & 1 ? "odd" : "even"))); break;
-    default: snprintf(out, sizeof out, "%li ", (long)val); CALL(ex, r = print_to(f->obj, 0, "%$ ", $I(val))); break;
+    case 3: snprintf(out, sizeof out, "%li ", (long)val); CALL(ex, r = print_to(f->obj, 0, "%$ ", $I(val))); break;
+    case 4: for (int i = 0; i < L; i++) arg[i] = (char)('a' + (val + i) % 26);
+            arg[L] = 0; memcpy(out, arg, (size_t)L + 1);
+            CALL(ex, r = print_to(f->obj, 0, "%s", $S(arg))); stat_add("file.print_long_piece", 1); break;
+    default: for (int i = 0; i < L - 1; i++) arg[i] = (char)('A' + (val + i) % 26);
+            arg[L - 1] = '\n'; arg[L] = 0; memcpy(out, arg, (size_t)L + 1);
+            CALL(ex, r = print_to(f->obj, 0, arg)); stat_add("file.print_long_piece", 1); break;
   }
   int fired = vfs_disarm();
   if (expect_ioerror_if_closed(f, ex, "print_to")) return;
@@ -458,7 +467,7 @@ static void files_generate_random(Plan* p, Rng* r, int maxops) {
     else if (d < 77) plan_add(p, F_TELL, 0, 0, fo, 0, 0, 0, 0, 0);
     else if (d < 81) plan_add(p, F_EOF, 0, 0, fo, 0, 0, 0, 0, 0);
     else if (d < 85) plan_add(p, F_FLUSH, 0, fault, fo, 0, 0, 0, 0, 0);
-    else if (d < 90) plan_add(p, F_PRINT, 0, fault, fo, rng_below(r, 4), (int64_t)rng_below(r, 2000000) - 1000000, 0, 0, 0);
+    else if (d < 90) plan_add(p, F_PRINT, 0, fault, fo, rng_chance(r, 1, 4) ? 4 + rng_below(r, 2) : rng_below(r, 4), (int64_t)rng_below(r, 2000000) - 1000000, 0, 0, 0);
     else if (d < 93) plan_add(p, F_SCAN, 0, 0, fo, 0, 0, 0, 0, 0);
     else if (d < 96) plan_add(p, F_WITH, 0, 0, fo, a, len_, 0, 0, 0);
     else plan_add(p, F_DEL, 0, fault, fo, 0, 0, 0, 0, 0);
